@@ -54,6 +54,15 @@ Step(e) ==
                  /\ (Has(e, "res") => Check(Consistent(e.res) /\ Same(e.res, Mk(e.cand, e.off, e.cal)) /\ e.res_zone = e.zone,
                                             "zoned_from_local_keeps_local_offset_calendar_zone"))
             ELSE Check(Has(e, "exc"), "zoned_from_local_with_an_offset_the_zone_does_not_have_must_raise")
+    [] e.op = "zoned_local" ->
+         \* a zoned value resolved from a local date-time (strict resolution may refuse: skipped or ambiguous; lenient never does)
+         /\ Check(e.how >= 2 \/ ~Has(e, "exc"), "lenient_resolution_must_not_raise")
+         /\ (Has(e, "res") =>
+               LET iv == [start |-> e.iv.start, end |-> e.iv.end, name |-> "", wall |-> e.iv.wall, std |-> 0, sav |-> 0] IN
+               /\ Check(Contains(iv, e.res.inst), "zone_interval_used_for_the_offset_contains_the_instant")
+               /\ Check(Consistent(e.res) /\ e.res.off = e.iv.wall /\ e.res.cal = e.cal /\ e.res_zone = e.zone,
+                        "zoned_offset_is_the_zone_offset_at_its_instant")
+               /\ Check(Same(e.plus_zero, Val(e.res)), "adding_nothing_changes_nothing"))
     [] e.op = "accessors" ->
          /\ Check(~Has(e, "exc"), "accessors_must_not_raise")
          /\ Check(e.acc = e.loc, "properties_read_the_local_date_time")
